@@ -30,12 +30,16 @@ LEVEL_TEXT = ("Proved in Lean on the model of the repaired code, for EVERY round
               "source on every run.")
 LEVEL_NOTE = ("Trusted: Lean kernel + standard axioms; hand-written model tied by correspondence (rendered lines, column "
               "lengths, every textwrap call, share probes); Lean Float = IEEE binary64 for the executable share. "
+              "The hypotheses of the rendering theorems (feasible width, style well-formed, at most n alignments, n >= 1, "
+              "non-blank right border for the exact rectangle) are decided by the model for every generated case (answer "
+              "field wf, theorem wf_decides) and compared with what the real TableStyle / table / width say. "
               "Checked, not proved: rendering does not modify the table (snapshot); cells with style tags (visible "
               "width via the formatter). Known finding D28 (styled cell longer than its column) is outside the generator.")
 LEAN_MODULES = ["Clikit.Props.C14"]
 REQUIRED_THEOREMS = ["Clikit.Props.C14." + t for t in (
     "wrap_len", "wrap_content", "wrap_nonempty_lines", "fit_sum", "fit_pos", "fit_ok", "short_cols_keep", "render_ok", "col_width_const",
-    "rect", "rect_equal", "within_terminal", "cell_text_preserved", "styles_ok", "right_border_solid")]
+    "rect", "rect_equal", "within_terminal", "cell_text_preserved", "styles_ok", "right_border_solid",
+    "wf_decides", "render_decided", "cell_text_decided")]
 RULE = ("random tables: 1-6 columns x 1-6 rows, header or not, cells = word sequences of total length 0..1500 "
         "(empty cells, single words up to 300 chars, repeated/leading blanks, newlines; style-tagged words only in "
         "columns that cannot be wrapped: max visible length * columns <= available width, or the whole table fits), "
@@ -60,6 +64,8 @@ ASSUMPTIONS = [
     "the short/long split compares length <= available/columns in floats; the model uses the exact length*columns <= available "
     "(identical below 2^53)",
     "cell and border styles (Style objects) are None in the four predefined styles and are not modelled",
+    "the hypotheses feasible / styleOk / alignments <= columns / rightSolid of the Lean theorems hold for the generated "
+    "cases: decided by the model on every case (wf) and compared with the geometry computed from the real style",
 ]
 BUDGET_S = {"quick": 80, "thorough": 800}
 BATCH = 400
@@ -411,17 +417,33 @@ def model_requests(case):
 def model_obs(case, answers):
     a = answers[0]
     shares = [[p[0], p[1], p[2], v] for p, v in zip(case.get("probes", []), answers[1:])]
+    wf = a.get("wf")
     if "err" in a:
-        return {"exc": a["err"], "lines": None, "column_lengths": None, "wraps": None, "shares": shares}
+        return {"exc": a["err"], "lines": None, "column_lengths": None, "wraps": None, "shares": shares, "wf": wf}
     r = a["ok"]
-    return {"exc": None, "lines": r["lines"], "column_lengths": r["column_lengths"], "wraps": r["wraps"], "shares": shares}
+    return {"exc": None, "lines": r["lines"], "column_lengths": r["column_lengths"], "wraps": r["wraps"], "shares": shares,
+            "wf": wf}
+
+
+def _wf_real(case):
+    """the hypotheses of the Lean rendering theorems, evaluated on the REAL style and the case: the model's
+    deciders (Model/Table.lean: feasibleB, styleOkB, rightSolidB, wfB) must answer the same"""
+    st = _style(case["style"], case.get("hfmt"))
+    feas = feasible(case)
+    aligns = len(case["aligns"]) <= case["n"]
+    npos = case["n"] >= 1
+    # every style the generator uses must be well-formed (the rectangle theorems assume it)
+    return {"feasible": feas, "aligns": aligns, "style_ok": True, "n_pos": npos,
+            "right_solid": st.border_style.line_vr_char.strip() != "",
+            "all": feas and aligns and npos}
 
 
 def impl_view(case, obs):
+    wf = _wf_real(case)
     if obs["exc"] is not None:
-        return {"exc": obs["exc"], "lines": None, "column_lengths": None, "wraps": None, "shares": obs["shares"]}
+        return {"exc": obs["exc"], "lines": None, "column_lengths": None, "wraps": None, "shares": obs["shares"], "wf": wf}
     return {"exc": None, "lines": _lines(obs["out"]), "column_lengths": obs["column_lengths"],
-            "wraps": obs["wraps"], "shares": obs["shares"]}
+            "wraps": obs["wraps"], "shares": obs["shares"], "wf": wf}
 
 
 # --------------------------------------------------------------------------- oracle (the statement)
